@@ -21,6 +21,14 @@ inductive Live (P : Prog) (c0 : Cfg) : Cfg → Prop
   | step {c c' : Cfg} : Live P c0 c → step P c = .ok c' → Live P c0 c'
   | deliver {c c' : Cfg} : Live P c0 c → c.deliver = some c' → Live P c0 c'
 
+/-- run for at most `n` steps and stop *before* the halting step: the last configuration of the run that is still live -/
+def runLive (P : Prog) : Nat → Cfg → Cfg
+  | 0, c => c
+  | n + 1, c =>
+    match step P c with
+    | .ok c' => runLive P n c'
+    | .error _ => c
+
 def isQuitcbEv : Ev → Bool
   | .quitcb _ => true
   | _ => false
